@@ -2387,8 +2387,15 @@ where
                 .reason_code(DisconnectReasonCode::PacketTooLarge)
                 .build()
                 .unwrap();
-            // Send disconnect packet directly without generic constraints
-            events.extend(self.process_send_v5_0_disconnect(disconnect_packet));
+            if self.status == ConnectionStatus::Connected {
+                // Send disconnect packet directly without generic constraints
+                events.extend(self.process_send_v5_0_disconnect(disconnect_packet));
+            } else {
+                // DISCONNECT cannot be sent before the connection is established
+                self.status = ConnectionStatus::Disconnected;
+                self.cancel_timers(&mut events);
+                events.push(GenericEvent::RequestClose);
+            }
             events.push(GenericEvent::NotifyError(MqttError::PacketTooLarge));
             return events;
         }
